@@ -40,7 +40,8 @@ Record tables := mkT {
   t_now : Z;
   t_pw_sup : bool; t_kbd : tri; t_pk_sup : bool;
   t_async : bool * bool * bool * bool * bool;  (* begin, pw, key, ca, kbd *)
-  t_noinstall : list user                     (* users for which begin_auth leaves the authorized keys alone *)
+  t_noinstall : list user;                    (* users for which begin_auth leaves the authorized keys alone *)
+  t_sk : list Z                               (* keys that are FIDO security keys *)
 }.
 
 Definition ouser_eqb (a b : option user) : bool := option_eqb zlist_eqb a b.
@@ -68,7 +69,8 @@ Definition world_of (t : tables) : world :=
     (fun b => match assoc zlist_eqb b (t_blobs t) with Some r => r | None => BBad end)
     (fun k d sg => existsb (fun e => (fst (fst e) =? k) && zlist_eqb (snd (fst e)) d && zlist_eqb (snd e) sg) (t_sigs t))
     (t_now t) (t_pw_sup t) (t_kbd t) (t_pk_sup t) ab apw akey aca akbd
-    (fun u => negb (existsb (zlist_eqb u) (t_noinstall t))).
+    (fun u => negb (existsb (zlist_eqb u) (t_noinstall t)))
+    (fun k => existsb (Z.eqb k) (t_sk t)).
 
 (* ---- operations and observations ------------------------------------------------------------------ *)
 Inductive cop := ODeliver (p : bytes) | OComplete (fid : Z) | OSettle | OTurn.
